@@ -74,6 +74,8 @@ def generate(rng, tier):
             base = corpus[i]
         elif i % 9 == 4:
             base = sc.gen_shared_delay(rng)
+        elif i % 9 == 7:
+            base = sc.gen_connect_chain(rng)       # same-named components with connect-phase dependencies
         elif i % 3 == 2:
             base = _strip_topush(sc.gen_ring(rng, sufficient=True))
         else:
@@ -104,7 +106,8 @@ def generate(rng, tier):
 def _variant_case(case, v):
     base = [dict(c, uid=k) for k, c in enumerate(case["base"]["comps"])]
     comps = sc.permute(base, v["order"])
-    return {"comps": comps, "end": case["base"]["end"], "link_order": v["link_order"]}
+    return {"comps": comps, "end": case["base"]["end"], "link_order": v["link_order"],
+            "samename": bool(case["base"].get("samename"))}
 
 
 def model_applies(case):
